@@ -40,7 +40,10 @@ type grantCfg struct {
 }
 
 type config struct {
-	nkeys     int
+	nkeys int
+	// keymap[i] = harness key placed at envelope keypair index i (nil = identity);
+	// the same key may occur at several indexes
+	keymap    []int
 	id        string
 	threshold uint32
 	total     uint32
@@ -55,9 +58,25 @@ func (cf config) proto() *envelope.EnvelopeConfig {
 	return out
 }
 
+// key returns the harness key at envelope keypair index i.
+func (cf config) key(i int) int {
+	if cf.keymap == nil {
+		return i
+	}
+	return cf.keymap[i]
+}
+
+func (cf config) keys() []int {
+	out := make([]int, cf.nkeys)
+	for i := range out {
+		out[i] = cf.key(i)
+	}
+	return out
+}
+
 func (cf config) String() string {
 	var sb strings.Builder
-	fmt.Fprintf(&sb, "keys=%d id=%q t=%d total=%d grants=", cf.nkeys, cf.id, cf.threshold, cf.total)
+	fmt.Fprintf(&sb, "keypairs=%v id=%q t=%d total=%d grants=", cf.keys(), cf.id, cf.threshold, cf.total)
 	for _, g := range cf.grants {
 		fmt.Fprintf(&sb, "{n=%d idx=%v}", g.count, g.idx)
 	}
@@ -103,7 +122,7 @@ func (cf config) reach(offered map[int]bool) (int, []uint32) {
 	for gi, g := range cf.grants {
 		ok := false
 		for _, i := range g.idx {
-			if int(i) < cf.nkeys && offered[int(i)] {
+			if int(i) < cf.nkeys && offered[cf.key(int(i))] {
 				ok = true
 			}
 		}
@@ -366,6 +385,15 @@ func (g *gen) pick(n int) int { return g.c.Rng.Intn(n) }
 // config from the property's bound, biased to edges
 func (g *gen) config() config {
 	cf := config{nkeys: 1 + g.pick(3)}
+	if cf.nkeys > 1 && g.pick(4) == 0 { // the same recipient key at several indexes
+		cf.keymap = make([]int, cf.nkeys)
+		for i := range cf.keymap {
+			cf.keymap[i] = g.pick(cf.nkeys - 1)
+		}
+		if g.pick(2) == 0 {
+			cf.keymap[cf.nkeys-1] = cf.keymap[0]
+		}
+	}
 	ng := 1 + g.pick(4)
 	for i := 0; i < ng; i++ {
 		gc := grantCfg{count: uint32(g.pick(3))}
@@ -390,6 +418,10 @@ func (g *gen) config() config {
 			gc.idx = []uint32{uint32(g.pick(cf.nkeys))}
 		}
 		cf.grants = append(cf.grants, gc)
+	}
+	if len(cf.grants) > 1 && g.pick(6) == 0 { // identical grants
+		i := g.pick(len(cf.grants) - 1)
+		cf.grants[i+1] = grantCfg{count: cf.grants[i].count, idx: append([]uint32{}, cf.grants[i].idx...)}
 	}
 	placed := 0
 	for i, n := range cf.sharesPerGrant() {
@@ -447,7 +479,7 @@ type built struct {
 func (g *gen) build(cf config, ctx string, payload []byte) built {
 	pubs := make([]crypto.PubKey, cf.nkeys)
 	for i := range pubs {
-		pubs[i] = g.keys[i].pub
+		pubs[i] = g.keys[cf.key(i)].pub
 	}
 	b := built{cf: cf, ctx: ctx, payload: payload}
 	p, v := hx.Catch(func() { b.env, b.err = envelope.BuildEnvelope(rngReader{g.c.Rng}, ctx, payload, pubs, cf.proto()) })
@@ -477,7 +509,7 @@ func (g *gen) emit(b built, tm tamper, sel []int, uctx string, o *uobs) {
 	}
 	desc := map[string]any{"kind": "env", "config": b.cf.String(), "ctx": b.ctx, "payload": hx.Hex(b.payload), "tamper": tm.term(),
 		"offered_keys": sel, "unlock_ctx": uctx, "build": buildClass(b.err), "unlock": ou}
-	g.c.Case(hx.App("EnvCase", hx.Nat(b.cf.nkeys), hx.Bytes(b.payload), hx.Str(b.ctx), hx.Str(b.cf.id), hx.U(uint64(b.cf.threshold)),
+	g.c.Case(hx.App("EnvCase", hx.NatList(b.cf.keys()), hx.Bytes(b.payload), hx.Str(b.ctx), hx.Str(b.cf.id), hx.U(uint64(b.cf.threshold)),
 		hx.U(uint64(b.cf.total)), hx.List(gr), tm.term(), hx.NatList(sel), hx.Str(uctx), hx.Nat(buildClass(b.err)), ou), desc)
 }
 
@@ -490,6 +522,9 @@ func (g *gen) subset(nkeys int, mask int, unrelated int) []int {
 	for k := 0; k < nkeys; k++ {
 		if mask&(1<<k) != 0 {
 			sel = append(sel, k)
+			if (mask+unrelated+k)%5 == 0 { // the same private key offered twice
+				sel = append(sel, k)
+			}
 		}
 	}
 	if unrelated&2 != 0 {
@@ -539,7 +574,7 @@ func (g *gen) checkSpec(b built, sel []int, o uobs) {
 func (g *gen) checkBuild(b built) {
 	all := map[int]bool{}
 	for k := 0; k < b.cf.nkeys; k++ {
-		all[k] = true
+		all[b.cf.key(k)] = true
 	}
 	max, _ := b.cf.reach(all)
 	need := int(b.cf.threshold) + 1
@@ -559,10 +594,15 @@ func (g *gen) checkBuild(b built) {
 	}
 }
 
-func (g *gen) allSel(nkeys int) []int {
-	sel := make([]int, nkeys)
-	for i := range sel {
-		sel[i] = i
+// allSel: the private keys of all recipients (each distinct key once)
+func (g *gen) allSel(cf config) []int {
+	var sel []int
+	seen := map[int]bool{}
+	for i := 0; i < cf.nkeys; i++ {
+		if k := cf.key(i); !seen[k] {
+			seen[k] = true
+			sel = append(sel, k)
+		}
 	}
 	return sel
 }
@@ -680,8 +720,8 @@ func (g *gen) tamper(b built) tamper {
 			return tamper{kind: "payload", mu: mutation{kind: "raw", extra: g.c.RandBytes(g.pick(60))}}
 		}
 	case 11, 12:
-		k := g.pick(b.cf.nkeys)
-		return tamper{kind: "forge", i: gi, ki: uint32(k), k: k, shares: g.forgedShares()}
+		ki := g.pick(b.cf.nkeys)
+		return tamper{kind: "forge", i: gi, ki: uint32(ki), k: b.cf.key(ki), shares: g.forgedShares()}
 	default:
 		if g.pick(6) == 0 {
 			return tamper{kind: []string{"nogrants", "nokeypairs"}[g.pick(2)]}
@@ -792,6 +832,9 @@ func c17(g *gen, ctxs []string, payload func() []byte) {
 		{nkeys: 1, threshold: 0, total: 1, grants: []grantCfg{{1, nil}, {1, []uint32{0}}}},
 		{nkeys: 2, threshold: 2, total: 3, grants: []grantCfg{{2, []uint32{0}}, {2, nil}, {2, []uint32{1}}}},
 		{nkeys: 2, threshold: 1, total: 3, grants: []grantCfg{{1, nil}, {2, []uint32{0, 1}}}},
+		{nkeys: 3, keymap: []int{0, 1, 0}, threshold: 2, grants: []grantCfg{{1, []uint32{0}}, {1, []uint32{1}}, {1, []uint32{2}}}},
+		{nkeys: 2, keymap: []int{0, 0}, threshold: 1, grants: []grantCfg{{1, []uint32{0}}, {1, []uint32{1}}}},
+		{nkeys: 3, keymap: []int{1, 1, 1}, threshold: 1, grants: []grantCfg{{1, []uint32{0, 0}}, {1, []uint32{2}}, {1, []uint32{2}}}},
 		{nkeys: 1, threshold: 0, grants: nil},
 		{nkeys: 0, threshold: 0, grants: []grantCfg{{1, nil}}},
 		{nkeys: 1, threshold: 0, grants: []grantCfg{{1, []uint32{1}}}},
@@ -816,7 +859,7 @@ func c17(g *gen, ctxs []string, payload func() []byte) {
 			n++
 			continue
 		}
-		sel := g.allSel(cf.nkeys)
+		sel := g.allSel(cf)
 		o := unlock(b.ctx, b.env, g.privs(sel))
 		g.checkSpec(b, sel, o)
 		if !o.panicked && o.err == nil && !o.res.GetSuccess() {
@@ -865,7 +908,7 @@ func c18(g *gen, ctxs []string, payload func() []byte) {
 			idx := append([]uint32{}, all...)
 			idx[pos] = uint32(nk)
 			tm := tamper{kind: "setidx", i: 0, idx: idx}
-			sel := g.allSel(nk)
+			sel := g.allSel(cf)
 			o := unlock(b.ctx, tm.apply(b.env, b.ctx, g.keys), g.privs(sel))
 			g.checkTamper(b, "index-tampered", o, map[string]any{"config": cf.String(), "tamper": tm.term()})
 			g.emit(b, tm, sel, b.ctx, &o)
@@ -879,7 +922,7 @@ func c18(g *gen, ctxs []string, payload func() []byte) {
 		if b.err != nil {
 			continue
 		}
-		sel := g.allSel(cf.nkeys)
+		sel := g.allSel(cf)
 		if g.pick(4) == 0 {
 			sel = g.subset(cf.nkeys, g.pick(1<<cf.nkeys), g.pick(4))
 		}
